@@ -668,6 +668,92 @@ Proof.
   exact (rel_cache_of e a _ _ X).
 Qed.
 
+(* The property text at full strength fails on the faithful model: one simulation of a cluster with a pending pod
+   that fails validation changes the cluster's pod bookkeeping. *)
+Definition wit_heap : heap := mkHeap (fun a => match a with 0 => CLeaf [] | _ => CFree end) 1.
+
+Lemma simulate_changes_nothing_refuted_l :
+  exists roots slices types book h calls a,
+    wf h /\ a < next h /\ ~ In a types /\
+    cells (simulate_all (genv roots slices types book) h calls) a <> cells h a.
+Proof.
+  exists [], [], [], 0, wit_heap, [mkSim OOk [7%Z] []], 0.
+  split; [|split; [|split]].
+  - intros a Ha. unfold wit_heap in *. simpl in *. destruct a; [lia|reflexivity].
+  - simpl. lia.
+  - intros [].
+  - vm_compute. discriminate.
+Qed.
+
+(* ... and holds when no pending pod is marked: no pod fails validation, or the call returns before
+   GetPendingPods (candidate already deleting, listing failed). *)
+Lemma simulate_changes_nothing_partial_l : forall roots slices types book h calls a,
+  wf h -> a < next h ->
+  Forall (fun c => pending_marks (s_outcome c) (s_rejected c) = []) calls ->
+  let h' := simulate_all (genv roots slices types book) h calls in
+  (~ In a types -> cells h' a = cells h a) /\ same_except_l [cacheF] (cells h a) (cells h' a).
+Proof.
+  intros roots slices types book h calls a Hwf Ha Hall. simpl.
+  rewrite simulate_all_is_run_all.
+  replace (map (fun c => map PMark (pending_marks (s_outcome c) (s_rejected c)) ++ sched_ops (s_decisions c)) calls)
+    with (map sched_ops (map s_decisions calls)).
+  - apply scheduling_writes_fresh_only_l; auto.
+  - rewrite map_map. induction Hall as [|c cs Hc _ IH]; simpl; auto.
+    rewrite Hc. simpl. rewrite IH. reflexivity.
+Qed.
+
+(* A provisioning pass (and any mix of passes and simulations, any number of them): below the allocation pointer,
+   only the bookkeeping cell, the nominatedUntil field of the cluster's own nodes and the unset cache field of
+   provider instance types may differ. *)
+Lemma provision_writes_only_nomination_and_bookkeeping_l : forall roots slices types book h (runs : list (list sop)) a,
+  wf h -> a < next h -> a <> book ->
+  let h' := run_all (genv roots slices types book) h runs in
+  (~ In a roots -> ~ In a types -> cells h' a = cells h a) /\ same_except_l [nomF; cacheF] (cells h a) (cells h' a).
+Proof.
+  intros roots slices types book h runs a Hwf Ha Hb. simpl.
+  set (e := genv roots slices types book).
+  destruct (run_all_x (al_prov e) e runs h generated_table_ok Hwf) as [_ [_ X]].
+  - apply Forall_forall. intros ops _. apply Forall_forall. intros o _. apply permits_prov.
+  - specialize (X a Ha). unfold al_prov in X. simpl in X.
+    destruct (Nat.eqb a book) eqn:Eb; [apply Nat.eqb_eq in Eb; contradiction|].
+    exact (rel_prov_of e a _ _ X).
+Qed.
+
+(* The deep-copy facts are necessary: with a table that leaves hostPortUsage shallow the same run writes the
+   cluster's own host-port map. *)
+Definition shallow_table : ttable :=
+  [("StateNode", [("hostPortUsage", FShallow); ("volumeUsage", FDeepObj "VolumeUsage")]);
+   ("HostPortUsage", [("reserved", FDeepLeaf)]);
+   ("VolumeUsage", [("volumes", FDeepLeaf); ("podVolumes", FDeepLeaf); ("limits", FDeepLeaf)])].
+
+Definition demo_heap : heap :=
+  mkHeap (fun a => match a with
+                   | 0 => CLeaf []                                                        (* bookkeeping *)
+                   | 1 => CLeaf [11%Z]                                                    (* reserved *)
+                   | 2 => CObj "HostPortUsage" [("reserved", VRef (Some 1))]
+                   | 3 => CLeaf [] | 4 => CLeaf [] | 5 => CLeaf []                         (* volumes, podVolumes, limits *)
+                   | 6 => CObj "VolumeUsage" [("volumes", VRef (Some 3)); ("podVolumes", VRef (Some 4)); ("limits", VRef (Some 5))]
+                   | 7 => CObj "StateNode" [("hostPortUsage", VRef (Some 2)); ("volumeUsage", VRef (Some 6));
+                                            ("markedForDeletion", VInt 0); ("nominatedUntil", VInt 0)]
+                   | 8 => CLeaf [30%Z; 10%Z; 20%Z]                                        (* provider slice *)
+                   | 9 => CLeaf [4000%Z; 8192%Z]                                          (* an instance type's Capacity map *)
+                   | 10 => CObj "InstanceType" [("Capacity", VRef (Some 9)); ("allocatableOfferings", VRef None)]
+                   | _ => CFree end) 11.
+
+Lemma demo_wf : wf demo_heap.
+Proof.
+  intros a Ha. unfold demo_heap in *. simpl in *.
+  do 11 (destruct a as [|a]; [lia|]). reflexivity.
+Qed.
+
+Lemma shallow_copy_would_leak_l :
+  exists h ops a, wf h /\ a < next h /\ forallb is_sim_op ops = true /\
+    cells (run (mkEnv shallow_table [7] [8] [10] 0) h ops) a <> cells h a.
+Proof.
+  exists demo_heap, [SAddPod 0 42%Z], 1. split; [apply demo_wf|split; [simpl; lia|split; [reflexivity|]]].
+  vm_compute. discriminate.
+Qed.
+
 (* ------------------------------------------------------------------ the oracle *)
 
 Lemma class_eqb_eq : forall a b, class_eqb a b = true <-> a = b.
